@@ -290,7 +290,7 @@ class SendPaths:
                 continue
         return None
 
-    def failure_context(self, site):
+    def failure_context(self, site, _depth=0):
         """What failure is the code at `site` conditioned on? Returns (kind, detail...) or None."""
         body = site.body
         # a) closure passed to map_err
@@ -311,6 +311,24 @@ class SendPaths:
                 r = self.classify_result(body, subj)
                 if r:
                     return ("guard",) + r
+            if kind == "discr" and _depth < 3:
+                # the guard tests a value of a crate-local enum built in this body (a classification such as
+                # `ReplyOutcome::Dropped`): the code under its arm is conditioned on what every construction of that
+                # variant is conditioned on
+                sv = strip_wrappers(subj)
+                members = list(sv[1]) if sv[0] == "phi" else [sv]
+                adts = {m[1][1] for m in members if strip_wrappers(m)[0] == "agg" and strip_wrappers(m)[1][0] == "adt"}
+                if len(adts) == 1 and next(iter(adts)) in self.f.adts and all(strip_wrappers(m)[0] == "agg" for m in members):
+                    adt = next(iter(adts))
+                    ctxs = set()
+                    for blk in body.blocks:
+                        for i, st in enumerate(blk.stmts):
+                            if st["k"] == "assign" and st["rv"].get("agg") == "adt" and st["rv"].get("adt") == adt and st["rv"].get("variant") == arm \
+                                    and blk.idx in cfg_of(body).live:
+                                c2 = self.failure_context(Site(body, blk.idx, i), _depth + 1)
+                                ctxs.add(c2[:3] if c2 else None)
+                    if len(ctxs) == 1 and None not in ctxs:
+                        return next(iter(ctxs))
             if kind == "value" and arm == "true":
                 s = strip_wrappers(subj)
                 if s[0] == "call":
